@@ -374,7 +374,12 @@ impl<'a> DwarfUnwinder<'a> {
         )?
         .ok_or(UnwindNoContext)?;
 
-        for _ in 0..frame_num {
+        // The context of frame N holds the registers restored for its caller, frame N + 1,
+        // with the stack pointer still to be set to the CFA of frame N (see
+        // `UnwindContext::next`). So the registers of frame `frame_num` come from the context
+        // of frame `frame_num - 1`; going one context further would yield the callee-saved
+        // registers (the frame pointer among them) of the caller of the requested frame.
+        for _ in 1..frame_num {
             let ret_addr = unwind_ucx.return_address().ok_or(UnwindTooDeepFrame)?;
 
             ecx = ExplorationContext::new(
@@ -388,8 +393,14 @@ impl<'a> DwarfUnwinder<'a> {
 
             unwind_ucx = UnwindContext::next(unwind_ucx, &ecx)?.ok_or(UnwindNoContext)?;
         }
+        // the requested frame must exist
+        unwind_ucx.return_address().ok_or(UnwindTooDeepFrame)?;
 
-        let unwind_registers = unwind_ucx.registers();
+        let mut unwind_registers = unwind_ucx.registers();
+        let sp_register = Register::Rsp
+            .dwarf_register()
+            .expect("stack pointer register must map to dwarf register");
+        unwind_registers.update(sp_register, unwind_ucx.cfa.into());
         registers.update_from(&unwind_registers);
 
         Ok(())
